@@ -95,6 +95,16 @@ add("C21", "exploration",
     "The async SubscriptionManager builders are not captured (sync/typed command builders are). Keyword-named stream ids are generated only in positional slots.",
     "grammar-based property-based testing with a denotational (expected request) oracle, differential client-vs-server check, mutation-based negative cases", "§4 C21")
 
+NODE_NOTE = "One in-process ClusterActor per worker process (kameo's swarm is process-global), node_count = 1 with replication factor 1-5 fixed per worker; the database is swapped per case with the repo's ResetCluster message. No network, no second node."
+add("C07", "exploration",
+    "Generated partition histories with arbitrary per-transaction confirmation counts around the quorum are written directly to disk; the real cluster node recomputes its watermarks from them and is then queried (ReadEvent, ReadPartition, ReadStream with boundary-biased ranges and counts, GetStreamVersion, GetPartitionSequence, lookups around every watermark). Nothing at or above the model watermark may be revealed.",
+    NODE_NOTE + " Completeness of answers is judged under C22, not here.",
+    "property-based testing of the real node against a reference watermark model (non-exposure invariant)", "§4 C07")
+add("C08", "exploration",
+    "PartitionConfirmationState is driven with generated report multisets (duplicates, stale lower counts, permutations, any replication factor) against the statement's three clauses (monotone, never above the quorum-confirmed prefix of maximum reported counts, equal to it once everything is delivered); and every intermediate disk state of BucketConfirmationManager's temp-write/rename persistence is constructed on real files and re-initialised against the database.",
+    "Crash states are constructed from the two complete state files (old and new) rather than by killing a process; on-disk confirmation counts are assumed to precede the report (as the protocol orders them).",
+    "property-based testing (order/duplication of reports) + crash-state enumeration of the persistence sequence", "§4 C08")
+
 NOT_BUILT = {}
 ALL = ["C%02d" % i for i in range(1, 27)]
 for i in ALL:
